@@ -203,3 +203,26 @@ Proof.
   intros b Hb. apply (backward_all toy_in (bstepB toy_in (toy_step nz na agrid egrid Pi_ss kappa)) (expectB nz na) (fun b => stochastic nz (b_Pi b)) T inputs ss); [|exact Hb].
   intros i e. unfold bstepB, toy_step. cbn [b_Pi]. apply toy_Pi_stochastic; assumption.
 Qed.
+
+(** ---- aggregate accounting along a path (C13) ---- *)
+Lemma aggregate_add nz na D X Y Z0 : (forall z a, (z < nz)%nat -> (a < na)%nat -> ent X z a +q ent Y z a = ent Z0 z a) ->
+  aggregate nz na D X +q aggregate nz na D Y = aggregate nz na D Z0.
+Proof.
+  intros H. unfold aggregate. rewrite <- hsum_add. apply hsum_ext. intros z Hz. rewrite <- hsum_add. apply hsum_ext. intros a Ha.
+  rewrite <- (H z a Hz Ha). ring.
+Qed.
+
+(** if consumption + asset choice = cash on hand at every grid point of date t, then along the forward pass
+    C_t + (assets carried into t+1 by Dbeg_{t+1}) = distribution-weighted cash on hand of date t *)
+Theorem budget_along_path_lemma nz na agrid : length agrid = na -> (2 <= na)%nat -> distinct_neighbours agrid ->
+  forall (back : list hback) (Dbeg : arr) k b d d' (coh : arr),
+  nth_error back k = Some b ->
+  nth_error (forward_nonlinear hback arr (exogB nz na) (endogB nz na agrid) back Dbeg) k = Some d ->
+  nth_error (forward_nonlinear hback arr (exogB nz na) (endogB nz na agrid) back Dbeg) (S k) = Some d' ->
+  (forall z a, (z < nz)%nat -> (a < na)%nat -> ent (b_c b) z a +q ent (b_a b) z a = ent coh z a) ->
+  aggregate nz na (snd d) (b_c b) +q carried_in nz na agrid (fst d') = aggregate nz na (snd d) coh.
+Proof.
+  intros Hg Hna Hd back Dbeg k b d d' coh Hb Hk Hk' Hbud.
+  unfold carried_in. rewrite (forward_asset_accounting nz na agrid Hg Hna Hd back Dbeg k b d d' Hb Hk Hk').
+  apply aggregate_add. exact Hbud.
+Qed.
